@@ -241,11 +241,12 @@ def load_yaml_text_with_nasim(text, name="verif"):
     pid = os.getpid()
     path = _SCRATCH.get(pid)
     if path is None:
-        d = tempfile.mkdtemp(prefix="nasimverif_")
-        path = os.path.join(d, "scenario.yaml")
+        # one shared scratch directory, one file name per process; the file is removed after every load, so nothing but
+        # the (empty) directory is ever left behind - pool workers do not run atexit handlers
+        d = os.path.join(tempfile.gettempdir(), "nasimverif")
+        os.makedirs(d, exist_ok=True)
+        path = os.path.join(d, "scenario_%d.yaml" % pid)
         _SCRATCH[pid] = path
-        import atexit, shutil
-        atexit.register(lambda d=d, p=pid: (os.getpid() == p) and shutil.rmtree(d, ignore_errors=True))
     with open(path, "w") as f:
         f.write(text)
     # every document carries the SAME modification time (as files copied with `cp -p` or unpacked from one archive do):
